@@ -247,37 +247,81 @@ Inductive step :=
 
 Definition copies_now (w : world) (recv : nat) (m : meth) : bool := mcopies m && negb (immutable_false w recv).
 
-Definition exec_step (T : table) (w : world) (s : step) : option (world * nat) :=
-  match s with
-  | SNew cls l => new_obj w cls l
-  | SCall recv mn args chs wrap =>
-      match nth_error (objs w) recv with
+(* recv.mn(args): [cp m] says whether the decorator copies the receiver first *)
+Definition exec_call (T : table) (cp : meth -> bool) (w : world) (recv : nat) (mn : string)
+           (args : list (string * item)) (chs : list (bool * cell)) (wrap : list (attr * cell)) : option (world * nat) :=
+  match nth_error (objs w) recv with
+  | None => None
+  | Some ob =>
+      match find_class T (ocls ob) with
       | None => None
-      | Some ob =>
-          match find_class T (ocls ob) with
+      | Some c =>
+          match find_meth (cmeths c) mn with
           | None => None
-          | Some c =>
-              match find_meth (cmeths c) mn with
+          | Some m =>
+              if negb (forallb (fun a => item_ok (length (objs w)) (snd a)) args) then None else
+              match (if cp m then copy_obj w recv (crecopy c) else Some (w, recv)) with
               | None => None
-              | Some m =>
-                  if negb (forallb (fun a => item_ok (length (objs w)) (snd a)) args) then None else
-                  match (if copies_now w recv m then copy_obj w recv (crecopy c) else Some (w, recv)) with
+              | Some (w1, self) =>
+                  match run_effs w1 self args (meffs m) chs with
                   | None => None
-                  | Some (w1, self) =>
-                      match run_effs w1 self args (meffs m) chs with
-                      | None => None
-                      | Some w2 =>
-                          match mret m with
-                          | RSelf => Some (w2, self)
-                          | RVia a => match deref w2 self a with None => None | Some o => Some (w2, o) end
-                          | RNew cls => new_obj w2 cls wrap
-                          end
+                  | Some w2 =>
+                      match mret m with
+                      | RSelf => Some (w2, self)
+                      | RVia a => match deref w2 self a with None => None | Some o => Some (w2, o) end
+                      | RNew cls => new_obj w2 cls wrap
                       end
                   end
               end
           end
       end
   end.
+
+Definition exec_step (T : table) (w : world) (s : step) : option (world * nat) :=
+  match s with
+  | SNew cls l => new_obj w cls l
+  | SCall recv mn args chs wrap => exec_call T (copies_now w recv) w recv mn args chs wrap
+  end.
+
+(* ---- the immutable=False sentence: the same chain of calls, run in place or through copies ---- *)
+Definition call := (string * list (string * item) * list (bool * cell))%type.
+
+(* cp = false : getattr(self, "immutable", True) is False, the decorator never copies;  cp = true : it copies whenever
+   the method is a @builder *)
+Fixpoint run_chain (T : table) (cp : bool) (w : world) (o : nat) (ch : list call) : option (world * nat) :=
+  match ch with
+  | [] => Some (w, o)
+  | (mn, args, chs) :: r =>
+      match exec_call T (fun m => cp && mcopies m) w o mn args chs [] with
+      | None => None
+      | Some (w1, o1) => run_chain T cp w1 o1 r
+      end
+  end.
+
+(* what the final object holds: its class and, per attribute, the content of the attribute's cell *)
+Definition view (w : world) (o : nat) : option (string * list (attr * option cell)) :=
+  match nth_error (objs w) o with
+  | None => None
+  | Some ob => Some (ocls ob, map (fun ac : attr * nat => (fst ac, nth_error (cells w) (snd ac))) (oattrs ob))
+  end.
+
+Definition tgt_is_self (t : tgt) : bool := match t with TSelf => true | _ => false end.
+Fixpoint fired_self (es : list eff) (chs : list (bool * cell)) : bool :=
+  match es, chs with
+  | e :: er, ch :: cr => (negb (fst ch) || tgt_is_self (etgt e)) && fired_self er cr
+  | _, _ => true
+  end.
+Definition call_self_only (c : class) (cl : call) : bool :=
+  match find_meth (cmeths c) (fst (fst cl)) with
+  | None => true
+  | Some m => (match mret m with RSelf => true | _ => false end) && fired_self (meffs m) (snd cl)
+  end.
+
+(* no two attributes of the object point to the same cell *)
+Fixpoint nodup_nat (l : list nat) : bool :=
+  match l with [] => true | x :: r => negb (existsb (Nat.eqb x) r) && nodup_nat r end.
+Definition unaliased (w : world) (o : nat) : bool :=
+  match nth_error (objs w) o with None => false | Some ob => nodup_nat (map snd (oattrs ob)) end.
 
 (* worlds after each step; a stuck step (None: the call is ill-formed for the model) ends the run *)
 Fixpoint run (T : table) (w : world) (h : list step) : list world :=
